@@ -180,7 +180,8 @@ class ProgGen:
         if name == "Tf":
             return Op(name, [Name(rng.choice(self.fontnames)), rng.choice([10, 12, 8, 1, 24, F(1, 2), -12, F(19, 2), 16])])
         if name in ("Td", "TD"):
-            return Op(name, [dy(rng, -40, 60), dy(rng, -40, 40)])
+            # zero offsets on purpose too: `0 0 Td` returns the pen to the start of the line
+            return Op(name, [F(0) if rng.random() < 0.2 else dy(rng, -40, 60), F(0) if rng.random() < 0.3 else dy(rng, -40, 40)])
         if name in ("Tm", "cm"):
             return Op(name, gen_matrix(rng))
         if name in ("Tj", "'"):
